@@ -56,6 +56,16 @@ OPS = [
 ]
 
 
+def ident_swaps(text):
+    """copy/paste slips: a field enumerator replaced by a sibling of the same enumeration, a 16/32/64-bit helper or type by
+    another width"""
+    groups = {}
+    for m in re.finditer(r'\bAVTP_[A-Z0-9]+(?:_[A-Z0-9]+)*?_FIELD_[A-Z0-9_]+\b', text):
+        pre = m.group(0).split('_FIELD_')[0]
+        groups.setdefault(pre, set()).add(m.group(0))
+    return {k: sorted(v) for k, v in groups.items() if len(v) > 1}
+
+
 def candidates(path, text, rng):
     """list of (line_no, new_line, description)"""
     lines = text.split('\n')
@@ -88,6 +98,20 @@ def candidates(path, text, rng):
                 new = code[:m.start()] + rep + code[m.end():]
                 if new != code:
                     out.append((i, new, '%s at col %d' % (name, m.start())))
+        if os.environ.get('MUTATE_IDENT'):
+            groups = candidates.groups if getattr(candidates, 'gtext', None) is text else None
+            if groups is None:
+                candidates.groups = groups = ident_swaps(text); candidates.gtext = text
+            for m in re.finditer(r'\bAVTP_[A-Z0-9]+(?:_[A-Z0-9]+)*?_FIELD_[A-Z0-9_]+\b', body):
+                if re.match(r'^\s*\[', code) or '=' in code.split(m.group(0))[0][-4:]:
+                    continue                      # not the table index / enum definition itself
+                sib = [x for x in groups.get(m.group(0).split('_FIELD_')[0], []) if x != m.group(0) and not x.endswith('_MAX')]
+                if sib and not m.group(0).endswith('_MAX'):
+                    out.append((i, code[:m.start()] + rng.choice(sib) + code[m.end():], 'sibling enumerator'))
+            for m in re.finditer(r'(Be|Le)(16|32|64)\b|\b(u?int)(16|32|64)(_t)\b|data_(u?int)(16|32|64)\b', body):
+                w = [x for x in ('16', '32', '64') if x not in m.group(0)]
+                new = re.sub(r'16|32|64', rng.choice(w), m.group(0), count=1)
+                out.append((i, code[:m.start()] + new + code[m.end():], 'other width'))
         if s.endswith(';') and not re.match(r'^(return|break|continue|goto|case|default|typedef|static|const|extern|struct|enum|uint|int|char|size_t|void|float|double|Avtp_\w+_t|Vss\w*_t)\b', s) and '=' in s or re.match(r'^\w+\(.*\);$', s):
             out.append((i, re.match(r'^\s*', code).group(0) + ';  /* statement deleted */', 'delete statement'))
     return out
@@ -121,6 +145,10 @@ def main():
             cands = candidates(f, texts[f], rng)
             if not cands:
                 continue
+            if os.environ.get('MUTATE_IDENT'):
+                cands = [c for c in cands if c[2] in ('sibling enumerator', 'other width')]
+                if not cands:
+                    continue
             ln, new, desc = rng.choice(cands)
             lines = texts[f].split('\n')
             old = lines[ln]
